@@ -10,7 +10,7 @@ from vf.core import Clause
 
 # names in prefix/suffix relation are deliberately in the pool (keyword routing is by name)
 NAME_POOL = ['A', 'BA', 'CBA', 'AB', 'B', 'H2', 'O2', 'CO2', 'CO', 'H2O', 'OH', 'H', 'O', 'TS1', '1TS1', 'O2_TS',
-             'H2_kwargs_x', 'X']
+             'H2_kwargs_x', 'X', 'Ar', 'K', 'Kr', 'H2_gas', 'CH3_s', 'water', 'gas', 'args']     # names made of the letters of '_kwargs' too
 COEF = st.one_of(st.sampled_from([0.25, 0.5, 1.0, 1.5, 2.0, 3.0, 4.0]), st.floats(0.25, 4.0))
 QUANTS = ['CvoR', 'CpoR', 'UoRT', 'HoRT', 'SoR', 'FoRT', 'GoRT']
 # dimensional getter -> (dimensionless quantity, unit, multiplied by T)
